@@ -290,3 +290,89 @@ func (e *Engine) deepEqual(s *State, a, b Value, t types.Type, strict bool, dept
 	unsupp("deep equality of %T", a)
 	return nil
 }
+
+// protoMerge models proto.Merge(dst, src) over the Go values of generated messages, with proto3
+// semantics: a scalar field of src replaces dst's only when it is non-zero (no field presence), a
+// non-empty bytes/string field replaces, a set sub-message is merged recursively (allocated in dst
+// when absent), repeated fields are appended, map entries are set. Optional (pointer-to-scalar)
+// fields and oneofs are not modelled (unsupported).
+func (e *Engine) protoMerge(s *State, dst, src PtrV, t types.Type, depth int) {
+	if depth > 16 {
+		unsupp("proto.Merge recursion too deep")
+	}
+	pt, ok := t.Underlying().(*types.Pointer)
+	if !ok {
+		unsupp("proto.Merge of %s", t)
+	}
+	st, ok := pt.Elem().Underlying().(*types.Struct)
+	if !ok {
+		unsupp("proto.Merge of %s", t)
+	}
+	sv, ok := e.load(s, src).(*StructV)
+	if !ok {
+		unsupp("proto.Merge source is %T", e.load(s, src))
+	}
+	for i := 0; i < st.NumFields(); i++ {
+		f := st.Field(i)
+		if n := f.Name(); n == "state" || n == "sizeCache" || n == "unknownFields" || !f.Exported() {
+			continue
+		}
+		dp := PtrV{Obj: dst.Obj, Path: extendPath(dst.Path, PathElem{Idx: i})}
+		sval := sv.F[i]
+		switch x := sval.(type) {
+		case *Term:
+			old := e.load(s, dp).(*Term)
+			var zero *Term
+			if x.Sort.Kind == 0 {
+				zero = False
+			} else {
+				zero = BVInt(0, x.Sort.Width)
+			}
+			e.store(s, dp, Ite(Eq(x, zero), old, x))
+		case StrV:
+			if x.S != "" {
+				e.store(s, dp, x)
+			}
+		case SymStr:
+			if len(x.Cells) > 0 {
+				e.store(s, dp, x)
+			}
+		case PtrV:
+			if x.Obj == 0 {
+				continue
+			}
+			fp, isPtr := f.Type().Underlying().(*types.Pointer)
+			if !isPtr {
+				unsupp("proto.Merge: pointer value in non-pointer field %s", f.Name())
+			}
+			if _, isMsg := fp.Elem().Underlying().(*types.Struct); !isMsg {
+				unsupp("proto.Merge: optional scalar field %s", f.Name())
+			}
+			dcur := e.load(s, dp).(PtrV)
+			if dcur.Obj == 0 {
+				dcur = PtrV{Obj: e.alloc(s, zeroValue(fp.Elem()))}
+				e.store(s, dp, dcur)
+			}
+			e.protoMerge(s, dcur, x, f.Type(), depth+1)
+		case SliceV:
+			if x.Obj == 0 {
+				continue
+			}
+			n, okn := e.uniqueValue(s, x.Len)
+			if !okn {
+				unsupp("proto.Merge: repeated/bytes field %s of symbolic length", f.Name())
+			}
+			if n == 0 {
+				continue
+			}
+			if sl, isSl := f.Type().Underlying().(*types.Slice); isSl && isByte(sl.Elem()) {
+				e.store(s, dp, e.deepCopy(s, x, f.Type(), map[int]int{}))
+				continue
+			}
+			unsupp("proto.Merge: repeated field %s", f.Name())
+		case nil:
+		default:
+			unsupp("proto.Merge: field %s holds %T", f.Name(), sval)
+		}
+	}
+}
